@@ -12,7 +12,7 @@ use slicec::slice_options::SliceOptions;
 pub fn meta(m: &mut PropMeta) {
     m.rule = "for each lint kind a template per element kind on which it can arise (Deprecated: field, parameter, return-tuple member, single return, alias, base interface, enumerator field, nested sequence element; BrokenDocLink / IncorrectDocComment / MalformedDocComment: every commentable kind; DuplicateFile: real files given twice) x suppression placement {none, command line, file attribute, enclosing definition, enclosing member, the element itself, an unrelated sibling, another file} x argument {that lint, All, another lint, two lints, that lint in another letter case on the command line} x {alone, next to an error}: complete product, and all ordered pairs of placements with 'that lint' / 'another lint'. Every insertion point is a line of its own so that no position moves. Options are parsed by the real clap definition. Oracle: reference level (Allowed iff named or All by an accepted --allow, by the file of occurrence, by the element concerned or a definition enclosing it; otherwise Warning; the enclosing-member placement is not judged: the statement says 'definition'); differential: with and without the suppression the diagnostic list (codes, messages, spans, notes, order) is identical except for the levels of the targeted lints, the observed AST is identical except for the added allow attribute, a control lint of another kind on an unrelated definition changes only when named at command-line/file level, and errors keep level Error. non-trivial = the suppression is in scope of the lint; distinct = distinct (template, placement, argument) inputs.";
     m.explanation = "complete template x placement x argument product with a reference level function and a differential oracle";
-    m.quick_bound = "32 templates x 8 placements x 5 arguments x 2; placement pairs";
+    m.quick_bound = "34 templates x 8 placements x 5 arguments x 2; placement pairs";
     m.thorough_bound = "same (complete)";
 }
 
@@ -76,6 +76,10 @@ fn templates() -> Vec<Template> {
     add("Deprecated", "parameter", vec![slot(Def), l("interface I {"), slot(Sibling), l("  other()"), slot(Member), l("  op("), slot(Elem), l("    p: D"), l("  )"), l("}")]);
     add("Deprecated", "return-tuple-member", vec![slot(Def), l("interface I {"), slot(Sibling), l("  other()"), slot(Member), l("  op() -> ("), slot(Elem), l("    r: D"), l("    q: int32"), l("  )"), l("}")]);
     add("Deprecated", "single-return", vec![slot(Def), l("interface I {"), slot(Sibling), l("  other()"), slot(Elem), l("  op() -> D"), l("}")]);
+    // a parameter and a return member of one operation may have the same name (and then the same scoped name): the
+    // lint concerns the one whose type is deprecated, the other one is an unrelated sibling
+    add("Deprecated", "parameter-named-like-a-return-member", vec![slot(Def), l("interface I {"), slot(Member), l("  op("), slot(Elem), l("    x: D"), l("  ) -> ("), slot(Sibling), l("    x: bool"), l("    y: bool"), l("  )"), l("}")]);
+    add("Deprecated", "return-member-named-like-a-parameter", vec![slot(Def), l("interface I {"), slot(Member), l("  op("), slot(Sibling), l("    x: bool"), l("  ) -> ("), slot(Elem), l("    x: D"), l("    y: bool"), l("  )"), l("}")]);
     add("Deprecated", "alias", vec![slot(Sibling), l("struct Sib {}"), slot(Elem), l("typealias A = D")]);
     add("Deprecated", "base-interface", vec![slot(Sibling), l("struct Sib {}"), slot(Elem), l("interface I : DI {}")]);
     add("Deprecated", "enumerator-field", vec![slot(Def), l("enum E {"), slot(Sibling), l("  W"), slot(Member), l("  V("), slot(Elem), l("    f: D"), l("  )"), l("}")]);
